@@ -82,19 +82,32 @@ def gen_obligations(g, P):
 
 
 def canaries(obligs):
-    """vacuity guard (c): per function, `False` must not be provable from the hypotheses of its first post / inv-step
-    obligations"""
-    seen = set()
+    """vacuity guard (c): per function and per loop, `False` must not be provable from the hypotheses of EVERY path that
+    reaches a return / the end of the loop body (a single infeasible path is normal: sequential ifs on the same test)"""
+    groups = {}
     out = []
     for ob in obligs:
         if ob.kind not in ('post', 'inv') or '/inv-init' in ob.name:
             continue
-        key = (ob.fn, ob.kind, ob.name.split('#L')[1].split('.')[0] if '#L' in ob.name else '')
-        if key in seen:
+        base = ob.name.split('~')[0]
+        if ob.kind == 'inv' and not base.endswith('.0'):
             continue
-        seen.add(key)
+        if ob.kind == 'post' and not base.endswith('post#0'):
+            continue
+        key = (ob.fn, base)
+        groups.setdefault(key, 0)
+        if groups[key] >= 6:
+            continue
+        groups[key] += 1
         out.append(Oblig('canary:' + ob.name, ob.hyps, BoolVal(False), ob.fn, ob.line, 'canary'))
     return out
+
+
+def vacuous_groups(cres):
+    by = {}
+    for r in cres:
+        by.setdefault(r['name'].split('~')[0], []).append(r['status'] == 'proved')
+    return [k for k, v in by.items() if all(v)]
 
 
 def run_oracle(prop, tier, seed, known_ids, budget):
@@ -171,7 +184,7 @@ def main():
     locked = set(lock.get(prop, []))
     proved = [r for r in res if r['status'] == 'proved']
     unproved = [r for r in res if r['status'] != 'proved']
-    vacuous = [r for r in cres if r['status'] == 'proved']
+    vacuous = [dict(name=k) for k in vacuous_groups(cres)]
     disagree = [r for r in res if r.get('disagree')]
     if a.relock:
         lock[prop] = sorted(r['name'] for r in proved)
@@ -240,7 +253,7 @@ def main():
             functions=fns,
             unproved=[dict(obligation=r['name'], verdict=r['verdict'], solver=r['solver']) for r in unproved],
             inapplicable=[dict(function=q, reason=w[:300]) for q, w in inapp],
-            vacuity=dict(canaries=len(cres), canaries_proved=len(vacuous), rule='`False` must not be provable from the hypotheses of the first post / inv-step obligation of each function'),
+            vacuity=dict(canaries=len(cres), infeasible_paths=sum(r['status'] == 'proved' for r in cres), vacuous_groups=len(vacuous), rule='per function and loop: `False` must not be provable from the hypotheses of every path reaching a return / the end of the loop body'),
             static_obligations=statics,
             samples=samples,
             solver_s_total=round(sum(r['time'] for r in res), 2),
